@@ -18,7 +18,8 @@ per-pattern matcher (`pm`), hence for the real wildmatch whatever it does:
   it (in particular no negation) can re-include a file under it.
 * wildmatch sanity: a pattern without metacharacters matches exactly itself
   (`wildmatch_literal`, and the fast path of `Pattern::matches` agrees: `matchesValue_literal`);
-  `**/x` matches `x` at any depth (`dstar_slash_any_depth`).
+  `**/x` matches `x` at any depth (`dstar_slash_any_depth`); the `*literal` fast path of
+  `Pattern::matches` agrees with wildmatch (`endsWith_fastpath`, `matchesValue_endsWith`).
 
 That Git's C implementation follows the documented rule, and that the model's `wildmatch`/parser
 equal gix's, is established differentially only (see notes/C28.md).
@@ -397,6 +398,83 @@ theorem dstar_slash_any_depth (x : Str) (hx : NoMeta x) (ds : List Str) :
     simp only [matchToks, Bool.or_eq_true]
     exact Or.inr (afterSlashK_join _ x hk d ds)
 
+theorem isPrefixOf_iff (a b : Str) : isPrefixOf a b = true ↔ a <+: b := by
+  induction a generalizing b with
+  | nil => simp [isPrefixOf]
+  | cons x xs ih =>
+    cases b with
+    | nil => simp [isPrefixOf]
+    | cons y ys => simp [isPrefixOf, ih, List.cons_prefix_cons]
+
+theorem isSuffixOf_iff (a b : Str) : isSuffixOf a b = true ↔ a <:+ b := by
+  simp [isSuffixOf, isPrefixOf_iff, List.reverse_prefix]
+
+theorem starK_iff (k : Str → Bool) (v : Str) (hv : '/' ∉ v) :
+    starK k v = true ↔ ∃ u w, v = u ++ w ∧ k w = true := by
+  induction v with
+  | nil =>
+    simp only [starK]
+    constructor
+    · intro h; exact ⟨[], [], rfl, h⟩
+    · rintro ⟨u, w, huw, hk⟩
+      have : w = [] := by
+        have h2 := congrArg List.length huw
+        simp at h2
+        exact List.eq_nil_of_length_eq_zero (by omega)
+      rw [← this]; exact hk
+  | cons x xs ih =>
+    have hx : x ≠ '/' := fun e => hv (by simp [e])
+    have hxs : '/' ∉ xs := fun h => hv (by simp [h])
+    simp only [starK, Bool.or_eq_true, Bool.and_eq_true, bne_iff_ne, ne_eq, hx, not_false_eq_true, true_and, ih hxs]
+    constructor
+    · rintro (h | ⟨u, w, rfl, hk⟩)
+      · exact ⟨[], x :: xs, rfl, h⟩
+      · exact ⟨x :: u, w, rfl, hk⟩
+    · rintro ⟨u, w, huw, hk⟩
+      cases u with
+      | nil => left; simp at huw; rw [huw]; exact hk
+      | cons a u' =>
+        right
+        simp at huw
+        exact ⟨u', w, huw.2, hk⟩
+
+/-- the `*literal` fast path of `gix_glob::Pattern::matches` (taken when the value contains no
+`/`) gives what wildmatch gives -/
+theorem endsWith_fastpath (lit v : Str) (hl : NoMeta lit) (hv : '/' ∉ v) :
+    isSuffixOf lit v = wildmatch ('*' :: lit) v := by
+  have hhead : lit.head? ≠ some '*' := by
+    cases lit with
+    | nil => simp
+    | cons c cs =>
+      have := hl c (by simp)
+      intro h; simp at h; subst h; simp [isGlobChar] at this
+  have htok : tokenize (('*' :: lit).length + 1) '/' ('*' :: lit) = Tok.star :: lit.map Tok.lit := by
+    simp [tokenize, hhead, tokenize_literal lit _ '*' hl (by simp : lit.length < lit.length + 1)]
+  unfold wildmatch
+  rw [htok]
+  simp only [matchToks]
+  rw [Bool.eq_iff_iff, isSuffixOf_iff, starK_iff _ _ hv]
+  constructor
+  · rintro ⟨u, rfl⟩
+    exact ⟨u, lit, rfl, by simp [matchToks_literal]⟩
+  · rintro ⟨u, w, rfl, hk⟩
+    simp [matchToks_literal] at hk
+    subst hk
+    exact ⟨u, rfl⟩
+
+/-- both branches of `Pattern::matches` for a `*literal` pattern agree with wildmatch on a value
+without `/` (whether or not the parser set `ENDS_WITH`) -/
+theorem matchesValue_endsWith (p : Pattern) (lit v : Str) (ht : p.text = '*' :: lit)
+    (hfw : p.firstWild = some 0) (hl : NoMeta lit) (hv : '/' ∉ v) :
+    p.matchesValue v = wildmatch p.text v := by
+  have hc : v.contains '/' = false := by simpa using hv
+  unfold Pattern.matchesValue
+  rw [hfw]
+  by_cases he : p.endsWith = true
+  · simp only [he, hc, ht, Bool.not_false, and_self, if_true]
+    exact endsWith_fastpath lit v hl hv
+  · simp [he, isPrefixOf]
+
 /-! ### non-vacuity and worked instances -/
 
 private def pf (s : String) : List Pattern := parseFile s.toList
@@ -409,6 +487,10 @@ example : (parseLine "!/a/b/  ".toList) =
     some { text := "a/b".toList, negative := true, absolute := true, mustBeDir := true,
            noSubDir := false, endsWith := false, firstWild := none } := by decide +kernel
 example : (parseLine "a\\  ".toList).map (·.text) = some "a\\ ".toList := by decide +kernel
+
+-- the hypotheses of `matchesValue_endsWith` for the line `*.c`
+example : (parseLine "*.c".toList).map (fun p => (p.text, p.firstWild, p.endsWith)) =
+    some ("*.c".toList, some 0, true) ∧ NoMeta ".c".toList := by decide +kernel
 
 -- wildmatch
 example : wildmatch "a/**/b".toList "a/b".toList = true ∧ wildmatch "a/**/b".toList "a/x/y/b".toList = true ∧
